@@ -114,7 +114,21 @@ class C04(Prop):
             'gaps': st.lists(st.sampled_from(['0', '5ms', '10ms', '99ms', '100ms', 'large']), min_size=2, max_size=10),
             'route': st.sampled_from(['response', 'response', 'triggers']),
         })
-        return st.one_of(history, history, history, overlap, overlap, window_args, shared)
+        # the tracepoint stays installed while the configuration around it changes: other tracepoints are registered
+        # and unregistered in code, the service sends new configurations (which still contain it) or "no change"
+        across = fd({
+            'mode': st.just('across_updates'),
+            'subject': st.sampled_from(['custom', 'custom', 'service']),
+            'fc': st.sampled_from(['1', '2', '3', '-1']), 'fp': st.sampled_from(['0', '0', '100', '3600000']),
+            'ops': st.lists(st.one_of(st.tuples(st.just('hit'), st.sampled_from([0, 1, 99, 100, 5000])),
+                                      st.tuples(st.just('hit'), st.sampled_from([0, 1, 99, 100, 5000])),
+                                      st.tuples(st.just('reg_other'), st.integers(0, 2)),
+                                      st.tuples(st.just('unreg_other'), st.integers(0, 2)),
+                                      st.tuples(st.just('svc_update'), st.integers(0, 3)),
+                                      st.tuples(st.just('nochange'), st.just(0))).map(list),
+                            min_size=3, max_size=14),
+        })
+        return st.one_of(history, history, history, overlap, overlap, window_args, shared, across)
 
     # -------------------------------------------------------------------------------------------------
     def run_case(self, recipe):
@@ -374,6 +388,89 @@ class C04(Prop):
         if allowed and refused:
             out.cls('allow_and_refuse')
         out.nontrivial = allowed > 0 and refused > 0
+        return out
+
+    def case_across_updates(self, recipe):
+        from deep.api.deep import Deep
+        from deep.grpc import convert_response
+        from deepproto.proto.tracepoint.v1.tracepoint_pb2 import TracePointConfig
+        out = Outcome()
+        out.cls('across_updates', 'across_updates_' + recipe['subject'])
+        cfg = lab.make_cfg({'APP_ROOT': '/app'})
+        d = Deep(cfg)
+        d.task_handler._pool.shutdown(wait=False)
+        d.task_handler._pool = lab.InlinePool()
+        push = lab.RecPush()
+        d.trigger_handler._push_service = push
+        args = {'fire_count': recipe['fc'], 'fire_period': recipe['fp']}
+        subject_id = 'svc-subject'
+        upd = [0]
+
+        def service_config(n_others):
+            upd[0] += 1
+            resp = [TracePointConfig(ID='svc-other-%d-%d' % (upd[0], i), path=PATH, line_number=LINE + 10 + i,
+                                     args={'fire_count': '-1', 'fire_period': '0'}) for i in range(n_others)]
+            if recipe['subject'] == 'service':
+                resp.insert(n_others // 2, TracePointConfig(ID=subject_id, path=PATH, line_number=LINE, args=dict(args)))
+            d.config.tracepoints.update_new_config(upd[0], 'H%d' % upd[0], convert_response(resp))
+        if recipe['subject'] == 'custom':
+            handle = d.register_tracepoint(PATH, LINE, dict(args), [], [])
+            subject_id = handle.get_tracepoint_config().id if hasattr(handle, 'get_tracepoint_config') else None
+        else:
+            service_config(1)
+        model = Limiter(int(recipe['fc']), int(recipe['fp']))
+        gen = lab.frame_at(PATH, LINE, 'target', {'v': 1})
+        others = {}
+        allowed = refused = changes_after_fire = 0
+        try:
+            for oi, op in enumerate(recipe['ops']):
+                if op[0] == 'hit':
+                    lab.CLOCK.advance_ms(op[1])
+                    lab.CLOCK.advance_ns(1)
+                    t = lab.CLOCK.now
+                    n0 = len(push.snapshots)
+                    d.trigger_handler.trace_call(gen.gi_frame, 'line', None)
+                    got = len([s_ for s_ in push.snapshots[n0:]
+                               if subject_id is None or s_.tracepoint.id == subject_id])
+                    exp = model.allows(t)
+                    if exp:
+                        model.fire(t)
+                        allowed += 1
+                    else:
+                        refused += 1
+                    if got != (1 if exp else 0):
+                        why = 'a due hit did not collect' if exp else (
+                            'collected beyond fire_count' if not (model.fc == -1 or model.count < model.fc)
+                            else 'collected closer than fire_period')
+                        out.violate('while the tracepoint stayed installed across configuration changes: %s (%s '
+                                    'tracepoint)' % (why, recipe['subject']),
+                                    {'op': oi, 'changes_since_first_fire': changes_after_fire, 'fc': recipe['fc'],
+                                     'fp': recipe['fp']})
+                        break
+                    continue
+                if model.count:
+                    changes_after_fire += 1
+                if op[0] == 'reg_other':
+                    if op[1] not in others:
+                        others[op[1]] = d.register_tracepoint(PATH, LINE + 20 + op[1], {'fire_count': '-1'}, [], [])
+                elif op[0] == 'unreg_other':
+                    h = others.pop(op[1], None)
+                    if h is not None:
+                        h.unregister()
+                elif op[0] == 'svc_update':
+                    service_config(op[1])
+                elif op[0] == 'nochange':
+                    upd[0] += 1
+                    d.config.tracepoints.update_no_change(upd[0])
+        except BaseException as e:      # noqa
+            out.violate('across updates: raised %s' % lab.exc_bucket(e))
+        finally:
+            gen.close()
+        if allowed and refused:
+            out.cls('allow_and_refuse')
+        if changes_after_fire and refused:
+            out.cls('refused_after_a_configuration_change')
+        out.nontrivial = changes_after_fire > 0 and allowed > 0 and refused > 0
         return out
 
     def case_window_args(self, recipe):
